@@ -211,9 +211,10 @@ def dg(script, lims) -> bytes:
                            digest_size=8).digest()
 
 
-def run_instrumented(script, mi, ms, lim, via_run_tape):
+def run_instrumented(script, mi, ms, lim, via_run_tape, entry=None):
     functions = env.mods()[0]
     mon = instr.Monitor(budget=BUDGET)
+    mon.configured = (mi, ms, lim)      # what the caller asked for
     old = sys.getrecursionlimit()
     sys.setrecursionlimit(30000)
     exc = None
@@ -226,6 +227,21 @@ def run_instrumented(script, mi, ms, lim, via_run_tape):
                     stack = MonStack(mi, ms)
                     functions.run_tape(tape, stack,
                                        {'timestamp': env.NOW0})
+                elif entry == 'auth':
+                    functions.run_auth_scripts([script], {}, {}, {}, mi, ms,
+                                               lim)
+                elif entry == 'auth-kw':
+                    functions.run_auth_scripts(
+                        [script], stack_max_items=mi, stack_max_item_size=ms,
+                        callstack_limit=lim)
+                elif entry == 'auth1':
+                    functions.run_auth_script(script, {}, {}, {}, mi, ms, lim)
+                elif entry == 'auth1-kw':
+                    functions.run_auth_script(
+                        script, stack_max_items=mi, stack_max_item_size=ms,
+                        callstack_limit=lim)
+                elif entry == 'positional':
+                    functions.run_script(script, {}, {}, {}, {}, mi, ms, lim)
                 else:
                     functions.run_script(script, {}, stack_max_items=mi,
                                          stack_max_item_size=ms,
@@ -239,7 +255,7 @@ def run_instrumented(script, mi, ms, lim, via_run_tape):
     return mon, exc
 
 
-def run_plain(script, mi, ms, lim):
+def run_plain(script, mi, ms, lim, compare_entries=True):
     functions = env.mods()[0]
     env.Entropy.log = []
     tracemalloc.start()
@@ -252,10 +268,21 @@ def run_plain(script, mi, ms, lim):
     _, peak = tracemalloc.get_traced_memory()
     tracemalloc.stop()
     entropy = list(env.Entropy.log)
+    ec = env.Entropy.counter
     try:
         auth = functions.run_auth_scripts([script], {}, {}, {}, mi, ms, lim)
     except BaseException as e:
         auth = e
+    if not compare_entries:
+        return exc, peak, entropy, auth
+    env.Entropy.counter = ec            # the same entropy stream again
+    try:
+        auth1 = functions.run_auth_script(script, {}, {}, {}, mi, ms, lim)
+    except BaseException as e:
+        auth1 = e
+    if auth1 is not auth and not (isinstance(auth, BaseException)
+                                  and isinstance(auth1, BaseException)):
+        auth = ('entry points differ', auth, auth1)
     return exc, peak, entropy, auth
 
 
@@ -266,7 +293,10 @@ def judge(ctx, case):
     script, mi, ms, lim = case['script'], case['mi'], case['ms'], case['lim']
     ctx.evaluated()
     ctx.tab('template', case['tmpl'])
-    mon, iexc = run_instrumented(script, mi, ms, lim, case.get('rt', False))
+    mon, iexc = run_instrumented(script, mi, ms, lim, case.get('rt', False),
+                                 case.get('entry'))
+    ctx.tab('entry', 'run_tape' if case.get('rt') else
+            (case.get('entry') or 'run_script'))
     ctx.count('monitor.dispatches', mon.dispatches)
     ctx.count('monitor.tape_reads', mon.reads)
     ctx.count('monitor.stack_appends', mon.appends)
@@ -283,7 +313,11 @@ def judge(ctx, case):
     if mon.exhausted or isinstance(iexc, instr.BudgetExceeded):
         ctx.count('skipped.dispatch_budget_exhausted')
         return
-    exc, peak, entropy, auth = run_plain(script, mi, ms, lim)
+    # the wrapper adds a Python frame: where a script comes near CPython's
+    # recursion limit (known finding) a TRY can swallow the RecursionError at
+    # a different point, so entry points are only compared on shallow runs
+    exc, peak, entropy, auth = run_plain(script, mi, ms, lim,
+                                         mon.max_py_depth <= 60)
     ctx.max('max_tracemalloc_peak', peak)
     ctx.tab('outcome', 'ok' if exc is None else type(exc).__name__)
     within = mon.max_chain <= lim and mon.max_loop_iters <= lim
@@ -297,7 +331,12 @@ def judge(ctx, case):
         ctx.violation(key, f'script ended with {type(exc).__name__} instead '
                       'of a script-execution error', case, 'script error',
                       repr(exc)[:120])
-    if auth is not False and auth is not True:
+    if isinstance(auth, tuple):
+        ctx.violation('auth-entry-points-differ', 'run_auth_scripts and '
+                      'run_auth_script give different verdicts under the '
+                      'same limits', case, repr(auth[1])[:60],
+                      repr(auth[2])[:60])
+    elif auth is not False and auth is not True:
         ctx.violation('auth-raises-on-limit', 'run_auth_scripts raised',
                       case, 'False', repr(auth)[:120])
     elif exc is not None and auth is True:
@@ -380,7 +419,9 @@ def run_shard(spec, ctx):
             continue
         case = {'script': script if len(script) < 3000 else script,
                 'mi': mi, 'ms': ms, 'lim': lim, 'tmpl': tmpl,
-                'rt': rng.random() < 0.15}
+                'rt': rng.random() < 0.15,
+                'entry': rng.choice((None, None, None, 'auth', 'auth-kw',
+                                     'auth1', 'auth1-kw', 'positional'))}
         judge(ctx, case)
         if j % 300 == 0 and len(script) < 80:
             ctx.sample(case)
